@@ -56,7 +56,8 @@ def make_table(spec):
     return df
 
 
-def fit_vine(vine_type, truncated, df, poison, pseed=0, state=7, seed=None, prefit=None):
+def fit_vine(vine_type, truncated, df, poison, pseed=0, state=7, seed=None, prefit=None,
+             positional=False):
     """Fit a vine under the given allocator content.  With ``prefit`` (a table, truncation)
     the SAME object is first fitted on that other table and used once: "after fit" has to
     hold for a second fit of a live object just as for the first."""
@@ -73,6 +74,8 @@ def fit_vine(vine_type, truncated, df, poison, pseed=0, state=7, seed=None, pref
                 outcome(v.get_likelihood, np.full((1, prefit[0].shape[1]), 0.4))
         if truncated is None:
             out = outcome(v.fit, df)                   # the documented default truncation
+        elif positional:
+            out = outcome(v.fit, df, truncated)        # fit(X, t)
         else:
             out = outcome(v.fit, df, truncated=truncated)
     return v, out
